@@ -9,7 +9,7 @@ from __future__ import annotations
 from .. import policy
 from ..rfc4511 import NOTICE_OID
 from ..values import Gen
-from ..world import Violation, World
+from ..world import Diverged, Violation, World
 from .base import PropBase, St
 
 P = "C08"
@@ -54,7 +54,7 @@ class C08(PropBase):
 
     def init_op(self, rng):
         return {"op": "init", "sessions": [{"name": "c", "role": "c", "peer": "s"}, {"name": "s", "role": "s", "peer": "c"}],
-                "observe_pending": True, "follow": True, "illegal_p": rng.choice([0.05, 0.2, 0.5]), "byz_p": rng.choice([0.0, 0.0, 0.02, 0.06]),
+                "observe_pending": True, "follow": True, "real_stream": True, "illegal_p": rng.choice([0.05, 0.2, 0.5]), "byz_p": rng.choice([0.0, 0.0, 0.02, 0.06]),
                 "chunk": rng.choice(["whole", "mixed", "mixed", "byte"]), "term_p": rng.choice([0.0, 0.0, 0.01, 0.04]),
                 "max_out": rng.choice([1, 2, 3, 6]),
                 "big": rng.choice([0.02, 0.1]), "style": policy.wire_style(rng)}
@@ -241,12 +241,11 @@ class C08(PropBase):
         ev = w.apply(op)
         if ev.get("noop"):
             return
-        if ev.get("deferred_termination"):
-            st.hit("deferred_termination_variant")  # tolerated repair of K1: the ProtocolError comes with the next receive
-            return
         role = se.role
         okk = ev["ok"]
         st.label("deliver:%s:%s" % (role, "ok" if okk else "err"))
+        if ev.get("unreadable") or ev.get("expect") is None:
+            raise Diverged("the peer's outgoing stream is not well-formed (C12's statement): %s" % ev.get("unreadable"))
         self._tri(st, "deliver:%s" % role, pre.st, okk)
         exp = ev["expect"]
         lights = ev["lights"] or []
